@@ -157,6 +157,10 @@ class SuitObject(PrettyPrintHelperMixin):
     def reject_sharing_tags(cbstr: bytes) -> None:
         """Reject the value sharing (28, 29) and string reference (25, 256) tags before the data is decoded.
 
+        Also the decimal fraction, bigfloat and rational number tags (4, 5, 30) and the regular expression and MIME
+        message tags (35, 36): cbor2 and the standard library convert their content in time that grows faster than
+        its length (a 160 kB bignum mantissa takes 10 s), and SUIT envelopes do not use them either.
+
         cbor2 resolves these tags into repeated references to a single object. Hashing such a structure (as a map
         key) or serializing it again expands every reference, so a short input may request time and memory
         exponential in its length. SUIT envelopes do not use these tags. Only the heads of the first data item are
@@ -197,8 +201,8 @@ class SuitObject(PrettyPrintHelperMixin):
             elif major == 5:
                 pending.append(None if argument is None else 2 * argument)
             elif major == 6:
-                if argument in (25, 28, 29, 256):
-                    raise ValueError("Shared values and string references are not supported!")
+                if argument in (4, 5, 25, 28, 29, 30, 35, 36, 256):
+                    raise ValueError("Shared values, string references and number / text formats are not supported!")
                 pending.append(1)
 
     @staticmethod
